@@ -22,7 +22,7 @@
                   RDeliver    r.Done <- r, the caller wakes up, ReqFree, Rpc returns
                   RClosed1    clnt.done <- true (as coded: rendezvous with the idle sender;
                               repaired: close(clnt.done)), takes the list
-                  RFanout     r.Err = err; r.Done <- r   for the head of the taken list
+                  RFanout     r.Err = err; r.Done <- r   for the head of the taken list; r = r.next
      peer / app   PeerReply PeerFrame PeerCut PeerClose Unmount
 
    Rendezvous steps are enabled only when the partner is ready (the controller never releases a
@@ -39,6 +39,9 @@
      FixOversize FALSE = as coded: a frame announcing more than the buffer makes Read return
                  (0, nil) and recv dereferences the nil error
      FixTagNil   FALSE = as coded: Tag.reqproc dereferences r.Rc of a request failed by the fan-out
+     FixFanNext  FALSE = as coded: the fan-out loop reads r.next after `r.Done <- r`; the woken caller's
+                 ReqFree clears r.next concurrently, so the rest of the list may never be failed
+                 (a race: both outcomes are possible, RFanout(lost))
      WaitSender  (only with FixHandoff) FALSE = the naive repair `close(done)` alone: the fan-out
                  can then let a caller free a Req that the sender still holds (it dereferences
                  req.Tc after csend_got) -- kept in the model to show why the repair waits *)
@@ -52,7 +55,7 @@ CONSTANTS K,            \* callers
           Kinds,        \* reply kinds the peer chooses from: "ok", "rerror", "wrongtype"
           Faults,       \* subset of {"close","cut","garbage","unknown","oversize","unmount"}
           MaxFaults,
-          FixHandoff, FixLeak, FixOversize, FixTagNil,
+          FixHandoff, FixLeak, FixOversize, FixTagNil, FixFanNext,
           WaitSender    \* repaired code: recv waits for the send goroutine to return before the fan-out
 
 Callers == 1..K
@@ -266,26 +269,27 @@ RClosed1 ==
   /\ UNCHANGED <<pc, ncall, res, tag, comp, pool, cache, leaked, cerr, rmsg, rcur, toPeer, nrecv,
                  got, nfault>>
 
-RFanout ==
+RFanout(lost) ==
   /\ Alive
   /\ rpc = "fanout"
   /\ LET r == Head(fan)
          k == Owner(Head(fan))
-         nxt == IF Tail(fan) = <<>> THEN "exited" ELSE "fanout" IN
-     IF IsTag(k)
-       THEN IF FixTagNil
-              THEN /\ comp' = [comp EXCEPT ![k] = Append(@, [call |-> r, st |-> "error", pay |-> 0])]
-                   /\ res' = [res EXCEPT ![r] = ErrRes]
-                   /\ rpc' = nxt /\ fan' = Tail(fan)
-                   /\ UNCHANGED <<pc, pool, cache>>
-              ELSE /\ rpc' = "panic"             \* reqproc: r.Rc.Type with r.Rc = nil
-                   /\ UNCHANGED <<comp, res, fan, pc, pool, cache>>
-       ELSE /\ pc[k] = "wait"
-            /\ res' = [res EXCEPT ![r] = ErrRes]
-            /\ Release(tag[r])
-            /\ pc' = [pc EXCEPT ![k] = AfterCall(k)]
-            /\ rpc' = nxt /\ fan' = Tail(fan)
-            /\ UNCHANGED comp
+         nxt == IF lost \/ Tail(fan) = <<>> THEN "exited" ELSE "fanout" IN
+     /\ lost => (~FixFanNext /\ ~IsTag(k) /\ Tail(fan) # <<>>)
+     /\ IF IsTag(k)
+          THEN IF FixTagNil
+                 THEN /\ comp' = [comp EXCEPT ![k] = Append(@, [call |-> r, st |-> "error", pay |-> 0])]
+                      /\ res' = [res EXCEPT ![r] = ErrRes]
+                      /\ rpc' = nxt /\ fan' = Tail(fan)
+                      /\ UNCHANGED <<pc, pool, cache>>
+                 ELSE /\ rpc' = "panic"             \* reqproc: r.Rc.Type with r.Rc = nil
+                      /\ UNCHANGED <<comp, res, fan, pc, pool, cache>>
+          ELSE /\ pc[k] = "wait"
+               /\ res' = [res EXCEPT ![r] = ErrRes]
+               /\ Release(tag[r])
+               /\ pc' = [pc EXCEPT ![k] = AfterCall(k)]
+               /\ rpc' = nxt /\ fan' = (IF lost THEN <<>> ELSE Tail(fan))
+               /\ UNCHANGED comp
   /\ UNCHANGED <<ncall, tag, leaked, list, cerr, spc, scur, rmsg, rcur, doneClosed, toPeer, nrecv,
                  fromPeer, conn, got, nfault>>
 
@@ -357,7 +361,8 @@ Finished == Alive /\ AllDone /\ UNCHANGED vars      \* stutter so that genuine d
 Next ==
   \/ \E k \in Callers : CAlloc(k) \/ CEnq(k) \/ CHandoff(k) \/ CHandoffEscape(k)
   \/ SGrant \/ PeerRead
-  \/ RRead \/ RReadEOF \/ RDeliver \/ RClosed1 \/ RFanout
+  \/ RRead \/ RReadEOF \/ RDeliver \/ RClosed1
+  \/ \E lost \in BOOLEAN : RFanout(lost)
   \/ \E c \in Calls, kind \in {"ok", "rerror", "wrongtype"} : PeerReply(c, kind)
   \/ \E kind \in {"garbage", "unknown", "oversize"} : PeerFrame(kind)
   \/ \E c \in Calls : PeerCut(c)
